@@ -11,11 +11,16 @@ package main
 
 import (
 	"bytes"
+	"go/ast"
+	"go/parser"
+	"go/token"
 	"math/rand"
+	"reflect"
 	"runtime"
 	"sort"
 	"sync"
 	"sync/atomic"
+	"time"
 
 	"github.com/mochi-mqtt/server/v2/mempool"
 
@@ -178,8 +183,266 @@ func poolOf(max int) poolAPI {
 	return poolAPI{get: p.Get, put: p.Put}
 }
 
+// ---- structural: the order of effects in the Put methods, read from the source this binary was
+// built from (the file recorded in the binary's line tables) ----
+//
+//	1 = x.Reset()   2 = <recv>.pool.Put(x)   3 = if x.Cap() > ... { return }
+//	4 = another Put(x)   5 = any other use of x   9 = a construct the reader cannot place
+//
+// deferred calls come last, in reverse order; x = the method's parameter.
+func poolMentions(n ast.Node, name string) bool {
+	found := false
+	ast.Inspect(n, func(m ast.Node) bool {
+		if id, ok := m.(*ast.Ident); ok && id.Name == name {
+			found = true
+		}
+		return !found
+	})
+	return found
+}
+
+func poolClassifyCall(c *ast.CallExpr, x string) int {
+	sel, ok := c.Fun.(*ast.SelectorExpr)
+	if !ok {
+		if poolMentions(c, x) {
+			return 5
+		}
+		return 0
+	}
+	if id, ok := sel.X.(*ast.Ident); ok && id.Name == x {
+		if sel.Sel.Name == "Reset" && len(c.Args) == 0 {
+			return 1
+		}
+		return 5
+	}
+	argIsX := len(c.Args) == 1
+	if argIsX {
+		id, ok := c.Args[0].(*ast.Ident)
+		argIsX = ok && id.Name == x
+	}
+	if sel.Sel.Name == "Put" && argIsX {
+		if inner, ok := sel.X.(*ast.SelectorExpr); ok && inner.Sel.Name == "pool" {
+			return 2
+		}
+		return 4
+	}
+	if poolMentions(c, x) {
+		return 5
+	}
+	return 0
+}
+
+func poolPutBody(fd *ast.FuncDecl) []int {
+	if fd.Type.Params == nil || len(fd.Type.Params.List) != 1 || len(fd.Type.Params.List[0].Names) != 1 {
+		return []int{9}
+	}
+	x := fd.Type.Params.List[0].Names[0].Name
+	var seq, deferred []int
+	for _, st := range fd.Body.List {
+		switch s := st.(type) {
+		case *ast.ExprStmt:
+			if c, ok := s.X.(*ast.CallExpr); ok {
+				if k := poolClassifyCall(c, x); k != 0 {
+					seq = append(seq, k)
+				}
+			} else if poolMentions(s, x) {
+				seq = append(seq, 9)
+			}
+		case *ast.DeferStmt:
+			if k := poolClassifyCall(s.Call, x); k != 0 {
+				deferred = append(deferred, k)
+			} else if poolMentions(s, x) {
+				deferred = append(deferred, 9) // e.g. defer func() { ... x ... }()
+			}
+		case *ast.IfStmt:
+			guard := s.Init == nil && s.Else == nil && len(s.Body.List) == 1
+			if guard {
+				r, ok := s.Body.List[0].(*ast.ReturnStmt)
+				guard = ok && len(r.Results) == 0
+			}
+			if guard {
+				if be, ok := s.Cond.(*ast.BinaryExpr); ok && be.Op == token.GTR {
+					if c, ok := be.X.(*ast.CallExpr); ok {
+						if sel, ok := c.Fun.(*ast.SelectorExpr); ok && sel.Sel.Name == "Cap" {
+							if id, ok := sel.X.(*ast.Ident); ok && id.Name == x {
+								seq = append(seq, 3)
+								continue
+							}
+						}
+					}
+				}
+			}
+			if poolMentions(s, x) {
+				seq = append(seq, 9)
+			}
+		case *ast.ReturnStmt:
+			if poolMentions(s, x) {
+				seq = append(seq, 9)
+			}
+		default:
+			if poolMentions(st, x) {
+				seq = append(seq, 9) // go statements, assignments, loops ... touching x
+			}
+		}
+	}
+	for i := len(deferred) - 1; i >= 0; i-- {
+		seq = append(seq, deferred[i])
+	}
+	return seq
+}
+
+func poolStructural(out *sx.Out) {
+	pc := reflect.ValueOf(mempool.NewBuffer).Pointer()
+	file, _ := runtime.FuncForPC(pc).FileLine(pc)
+	fset := token.NewFileSet()
+	f, err := parser.ParseFile(fset, file, nil, 0)
+	found := map[string][]int{}
+	if err == nil {
+		for _, d := range f.Decls {
+			fd, ok := d.(*ast.FuncDecl)
+			if !ok || fd.Recv == nil || fd.Name.Name != "Put" || fd.Body == nil || len(fd.Recv.List) != 1 {
+				continue
+			}
+			if st, ok := fd.Recv.List[0].Type.(*ast.StarExpr); ok {
+				if id, ok := st.X.(*ast.Ident); ok {
+					found[id.Name] = poolPutBody(fd)
+				}
+			}
+		}
+	}
+	for kind, name := range []string{"Buffer", "BufferWithCap"} {
+		seq, ok := found[name]
+		if !ok {
+			seq = []int{9} // method not found (or file unreadable): not the structure the model describes
+		}
+		l := sx.L{}
+		for _, k := range seq {
+			l = append(l, sx.N(k))
+		}
+		out.Case(sx.L{sx.N(8), sx.N(kind), l})
+	}
+}
+
+// ---- parallel canary stress: n goroutines, each holding 2..4 buffers at a time.  Every goroutine
+// fills its buffers with its own id byte and checks on every step that what it owns still has the
+// length it wrote and contains only its own bytes, and that Get returned an empty buffer.
+// case = (7 max gets viols), viol = (kind tid id want seen) ----
+type poolViol struct{ kind, tid, id, want, seen int }
+
+func poolStress(api poolAPI, max, workers int, dur time.Duration, seed int64) sx.V {
+	var gets uint64
+	var mu sync.Mutex
+	var viols []poolViol
+	ids := map[*bytes.Buffer]int{}
+	report := func(v poolViol, b *bytes.Buffer) {
+		mu.Lock()
+		id, ok := ids[b]
+		if !ok {
+			id = len(ids) + 1
+			ids[b] = id
+		}
+		v.id = id
+		if len(viols) < 16 {
+			viols = append(viols, v)
+		}
+		mu.Unlock()
+	}
+	stop := make(chan struct{})
+	var wg sync.WaitGroup
+	for w := 0; w < workers; w++ {
+		wg.Add(1)
+		go func(tid int) {
+			defer wg.Done()
+			rng := rand.New(rand.NewSource(seed + int64(tid)))
+			me := byte(tid)
+			chunk := bytes.Repeat([]byte{me}, 96)
+			type own struct {
+				b *bytes.Buffer
+				n int
+			}
+			var held []own
+			check := func(o own) bool {
+				if o.b.Len() != o.n {
+					report(poolViol{kind: 1, tid: tid, want: o.n, seen: o.b.Len()}, o.b)
+					return false
+				}
+				for _, c := range o.b.Bytes() {
+					if c != me {
+						report(poolViol{kind: 2, tid: tid, want: tid, seen: int(c)}, o.b)
+						return false
+					}
+				}
+				return true
+			}
+			for round := 0; ; round++ {
+				if round%64 == 0 {
+					select {
+					case <-stop:
+						for _, o := range held {
+							api.put(o.b)
+						}
+						return
+					default:
+					}
+				}
+				want := 2 + rng.Intn(3)
+				for len(held) < want {
+					b := api.get()
+					if l := b.Len(); l != 0 {
+						report(poolViol{kind: 0, tid: tid, seen: l}, b)
+						b.Reset() // carry on with a usable buffer: later reports stay meaningful
+					}
+					atomic.AddUint64(&gets, 1)
+					n := 1 + rng.Intn(len(chunk))
+					if max > 0 && rng.Intn(16) == 0 {
+						n = len(chunk) // stays below every cap the stress uses
+					}
+					b.Write(chunk[:n])
+					held = append(held, own{b, n})
+				}
+				ok := true
+				for i := range held {
+					if !check(held[i]) {
+						ok = false
+					}
+					if rng.Intn(4) == 0 && held[i].n < 4096 {
+						k := 1 + rng.Intn(len(chunk))
+						held[i].b.Write(chunk[:k])
+						held[i].n += k
+					}
+				}
+				if !ok { // forget what went wrong, do not put possibly shared buffers back twice
+					held = held[:0]
+					continue
+				}
+				k := 1 + rng.Intn(len(held))
+				for i := 0; i < k; i++ {
+					j := rng.Intn(len(held))
+					if check(held[j]) {
+						api.put(held[j].b)
+					}
+					held = append(held[:j], held[j+1:]...)
+				}
+			}
+		}(w + 1)
+	}
+	time.Sleep(dur)
+	close(stop)
+	wg.Wait()
+	vl := sx.L{}
+	for _, v := range viols {
+		vl = append(vl, sx.L{sx.N(v.kind), sx.N(v.tid), sx.N(v.id), sx.N(v.want), sx.N(v.seen)})
+	}
+	m := max
+	if m < 0 {
+		m = 0
+	}
+	return sx.L{sx.N(7), sx.N(m), sx.N(atomic.LoadUint64(&gets)), vl}
+}
+
 func engPool(seed int64, tier string, _ []string, out *sx.Out) {
 	rng := rand.New(rand.NewSource(seed))
+	poolStructural(out)
 	// the package-level pool first (nothing else has touched it in this process)
 	out.Case(poolCase(rng, poolAPI{get: mempool.GetBuffer, put: mempool.PutBuffer}, 0, 8, 120, 2, false))
 
@@ -198,6 +461,17 @@ func engPool(seed int64, tier string, _ []string, out *sx.Out) {
 	for i := 0; i < nseq; i++ {
 		c := caps[rng.Intn(len(caps))]
 		out.Case(poolCase(rng, poolOf(c), c, 1, 40+rng.Intn(160), 1+rng.Intn(4), rng.Intn(3) == 0))
+	}
+	// (iv) parallel canary stress on every kind of pool (time-bounded)
+	dur, reps := 400*time.Millisecond, 1
+	if tier == "thorough" {
+		dur, reps = 2*time.Second, 3
+	}
+	for r := 0; r < reps; r++ {
+		out.Case(poolStress(poolAPI{get: mempool.GetBuffer, put: mempool.PutBuffer}, 0, 32, dur, rng.Int63()))
+		out.Case(poolStress(poolOf(0), 0, 16+rng.Intn(17), dur, rng.Int63()))
+		out.Case(poolStress(poolOf(8192), 8192, 16+rng.Intn(17), dur, rng.Int63()))
+		out.Case(poolStress(poolOf(1024), 1024, 24, dur, rng.Int63()))
 	}
 	// (iii) concurrent get/write/put on many goroutines
 	for i := 0; i < nconc; i++ {
